@@ -251,6 +251,7 @@ func (h *harnessRun) runPath(sess *session, prefix []int) {
 		funcs:   map[string]bool{},
 	}
 	p := &pathState{eng: h.eng, h: h, prefix: prefix, sess: sess, names: map[string]int{}}
+	p.interp = i
 	i.path = p
 	sess.begin()
 	defer sess.end()
